@@ -28,6 +28,9 @@ pub struct TxOp {
     /// expected output of a depth probe (C07), if this transaction is one
     #[serde(default)]
     pub probe_expect: Option<u64>,
+    /// the block's beneficiary changes before this transaction (a new block on the same Evm)
+    #[serde(default)]
+    pub coinbase: Option<Address>,
 }
 
 #[derive(Clone, Debug, Serialize, Deserialize)]
@@ -152,7 +155,8 @@ impl Engine for TxSim {
                     });
                 }
             }
-            ops.push(TxOp { tx, faults, short_circuits, via_commit: rng.chance(1, 4), probe_expect: None });
+            let coinbase = if rng.chance(1, 5) { Some(*rng.pick(&world.universe)) } else { None };
+            ops.push(TxOp { tx, faults, short_circuits, via_commit: rng.chance(1, 4), probe_expect: None, coinbase });
         }
         if self.focus == "C07" {
             // driver: sibling calls/creates with bounded gas, then the depth prober
@@ -203,7 +207,7 @@ impl Engine for TxSim {
             tx.gas_price = world.block.basefee;
             // the sender must afford gas_limit * price: use price = basefee and give it funds
             world.disk.accounts.get_mut(&world.eoas[0]).unwrap().balance = U256::MAX >> 8;
-            ops.push(TxOp { tx, faults: FaultPlan::default(), short_circuits: vec![], via_commit: false, probe_expect: Some(1023) });
+            ops.push(TxOp { tx, faults: FaultPlan::default(), short_circuits: vec![], via_commit: false, probe_expect: Some(1023), coinbase: None });
         }
         TxCase { world, ops }
     }
@@ -349,6 +353,7 @@ pub fn run_monitor_case(case: &TxCase, stats: &mut Stats, focus: &str) -> Vec<Vi
     let state_clear = spec.is_enabled_in(SpecId::SPURIOUS_DRAGON);
     let london = spec.is_enabled_in(SpecId::LONDON);
     let mut sys = Sys::new(&w.cfg, w.disk.clone(), &w.block);
+    let mut block = w.block.clone();
     let mut out: Vec<Violation> = Vec::new();
     let mut fp = Hasher64::new();
     fp.s(&w.cfg.spec);
@@ -366,6 +371,13 @@ pub fn run_monitor_case(case: &TxCase, stats: &mut Stats, focus: &str) -> Vec<Vi
     let mut nontrivial = false;
     for (i, op) in case.ops.iter().enumerate() {
         let tx = &op.tx;
+        if let Some(cb) = op.coinbase {
+            // a new block with another beneficiary on the same Evm instance
+            block.coinbase = cb;
+            block.number += 1;
+            sys.set_block(&block);
+            stats.inc("probe.coinbase_changed_between_txs");
+        }
         // ---- pre-state (through the stack, faults disarmed)
         sys.bottom.disarm();
         let pre = match sys.logical_state(&universe, &w.slots, state_clear) {
@@ -376,7 +388,7 @@ pub fn run_monitor_case(case: &TxCase, stats: &mut Stats, focus: &str) -> Vec<Vi
             spec: Some(spec),
             caller: tx.caller,
             to: tx.to,
-            coinbase: w.block.coinbase,
+            coinbase: block.coinbase,
             access_list: tx.access_list.clone(),
             authorities: valid_authorities(tx, w.cfg.chain_id),
         };
@@ -463,8 +475,8 @@ pub fn run_monitor_case(case: &TxCase, stats: &mut Stats, focus: &str) -> Vec<Vi
             ExecutionResult::Success { gas_refunded, .. } => *gas_refunded,
             _ => 0,
         };
-        let eff = effective_gas_price(spec, tx, &w.block);
-        let bfee = blob_fee(spec, tx, &w.block);
+        let eff = effective_gas_price(spec, tx, &block);
+        let bfee = blob_fee(spec, tx, &block);
 
         // ================= C07 probe
         if let Some(expect) = op.probe_expect {
@@ -536,7 +548,7 @@ pub fn run_monitor_case(case: &TxCase, stats: &mut Stats, focus: &str) -> Vec<Vi
                 stats.inc("probe.gas_limit_exactly_intrinsic");
             }
             // payment equations, only when no other ether flow touched the party
-            let sender_clean = !ether_touched.contains(&tx.caller) && tx.caller != w.block.coinbase && tx.to != Some(tx.caller);
+            let sender_clean = !ether_touched.contains(&tx.caller) && tx.caller != block.coinbase && tx.to != Some(tx.caller);
             // a short-circuited top frame never transfers the transaction's value
             let top_short_circuited = op.short_circuits.iter().any(|s| s.hook_no == 0);
             let top_ok = matches!(res, ExecutionResult::Success { .. }) && !top_short_circuited;
@@ -554,12 +566,12 @@ pub fn run_monitor_case(case: &TxCase, stats: &mut Stats, focus: &str) -> Vec<Vi
             } else {
                 stats.inc("probe.sender_equation_not_evaluated");
             }
-            let cb = w.block.coinbase;
+            let cb = block.coinbase;
             let cb_clean = !ether_touched.contains(&cb) && cb != tx.caller && tx.to != Some(cb);
             if cb_clean {
                 let before = u512(pre2.balance(&cb));
                 let after = u512(post.balance(&cb));
-                let price = if london { eff.saturating_sub(w.block.basefee) } else { eff };
+                let price = if london { eff.saturating_sub(block.basefee) } else { eff };
                 let reward = u512(price) * U512::from(gas_used);
                 stats.inc("probe.coinbase_equation_evaluated");
                 // a coinbase that would exceed 2^256 cannot hold the reward (unspecified); skip
@@ -577,7 +589,7 @@ pub fn run_monitor_case(case: &TxCase, stats: &mut Stats, focus: &str) -> Vec<Vi
                 let mut expected = sum_before;
                 let mut burn = U512::ZERO;
                 if london {
-                    burn += u512(w.block.basefee) * U512::from(gas_used);
+                    burn += u512(block.basefee) * U512::from(gas_used);
                 }
                 burn += u512(bfee);
                 // ether held at the end of the transaction by accounts it deletes
@@ -602,7 +614,7 @@ pub fn run_monitor_case(case: &TxCase, stats: &mut Stats, focus: &str) -> Vec<Vi
                     // narrow facts for the known "total supply above 2^256" defect class
                     let site = if sd_wrapped {
                         "selfdestruct-credit-wrap"
-                    } else if post.balance(&w.block.coinbase) == U256::MAX {
+                    } else if post.balance(&block.coinbase) == U256::MAX {
                         "reward-saturation"
                     } else if post.balance(&tx.caller) == U256::MAX {
                         "reimburse-saturation"
